@@ -66,27 +66,35 @@ func Load(c Config) (*Prog, error) {
 	if err != nil {
 		return nil, err
 	}
-	ov, notes := renameBack(p)
-	if len(ov) == 0 {
-		return p, nil
+	// up to three rounds: undoing a type rename makes the signatures of the functions that mention
+	// the type comparable with the baseline in the next round
+	cur := c
+	var allNotes []string
+	for round := 0; round < 3; round++ {
+		ov, notes := renameBack(p)
+		if len(ov) == 0 {
+			break
+		}
+		c2 := cur
+		c2.Overlay = map[string][]byte{}
+		for k, v := range cur.Overlay {
+			c2.Overlay[k] = v
+		}
+		for k, v := range ov {
+			c2.Overlay[k] = v
+		}
+		p2, err2 := loadOnce(c2)
+		if err2 != nil {
+			// the rename-back edit did not type-check (name clash): analyse what we have
+			allNotes = append(allNotes, "rename normalisation stopped: "+err2.Error())
+			break
+		}
+		p, cur = p2, c2
+		allNotes = append(allNotes, notes...)
 	}
-	c2 := c
-	c2.Overlay = map[string][]byte{}
-	for k, v := range c.Overlay {
-		c2.Overlay[k] = v
-	}
-	for k, v := range ov {
-		c2.Overlay[k] = v
-	}
-	p2, err2 := loadOnce(c2)
-	if err2 != nil {
-		// the rename-back edit did not type-check (name clash): analyse the tree as it is
-		p.Normalised = []string{"rename normalisation abandoned: " + err2.Error()}
-		return p, nil
-	}
-	p2.Cfg = c
-	p2.Normalised = notes
-	return p2, nil
+	p.Cfg = c
+	p.Normalised = allNotes
+	return p, nil
 }
 
 func loadOnce(c Config) (*Prog, error) {
